@@ -167,11 +167,14 @@ class Map(Evaluatable[Iterable[Tuple[Dict[str, JSON], A]]]):
     def _iterate_over_options(
         self, options: Options
     ) -> Tuple[Tuple[Tuple[str, JSON], ...], ...]:
+        iterables = [iterable.evaluate(options) for iterable in self.iterables.values()]
+        try:
+            combinations = tuple(itertools.product(*iterables))
+        except Exception as e:
+            raise EvaluationError("Could not iterate over the Map iterables", self) from e
+
         return tuple(
-            tuple(zip(self.iterables.keys(), values))
-            for values in itertools.product(
-                *(iterable.evaluate(options) for iterable in self.iterables.values())
-            )
+            tuple(zip(self.iterables.keys(), values)) for values in combinations
         )
 
     def __repr__(self) -> str:
